@@ -71,3 +71,53 @@ def mirror_total(ctx):
             obs.append(Ob('SA-MIRROR.total', '%s|loops mirroring %s range over the same members' % (cq, fld), ok, ctx.loc(lst[0][0], lst[0][1]),
                           '' if ok else 'the loops that mirror self.%s range over different expressions (%s): growing and shrinking update different sets of members' % (fld, sorted(its))))
     return obs
+
+
+@rule('SA-MIRROR.loopvar')
+@props('C03', 'C02')
+def loopvar(ctx):
+    """The target of a `for` loop is not read after the loop (library code; loops that `break` out of a search are the
+    exception: there the variable deliberately holds the element found).  A statement that was meant to act on every
+    member and sits one indentation level too far left acts on the last member only (the second and later copies of the
+    volume descriptor keep their own root record), and a loop that re-uses the name of a flag of the enclosing function
+    as its target leaves that flag with the value of the last member."""
+    from .. import expand as ex
+    from .. import cfg as cfgmod
+    obs = []
+    nloops = 0
+    for fi in ctx.m.pkg_functions():
+        loops = [n for n in ctx.own_nodes(fi) if isinstance(n, ast.For)]
+        if not loops:
+            continue
+        g, RD = ex._rd(ctx, fi)
+        for loop in loops:
+            nloops += 1
+            if any(isinstance(x, ast.Break) for st in loop.body for x in ast.walk(st)):
+                continue
+            names = set(cfgmod.target_names(loop.target))
+            inside = set(id(x) for x in ast.walk(loop))
+            leaks = []
+            for node in g.nodes:
+                st = node.stmt
+                if st is None or node.kind not in ('stmt', 'test') or id(st) in inside:
+                    continue
+                reach = RD.get(node.id) or ()
+                for e in cfgmod.node_exprs(node):
+                    for sub in ast.walk(e):
+                        if isinstance(sub, ast.Name) and isinstance(sub.ctx, ast.Load) and sub.id in names and id(sub) not in inside and \
+                                any(nm == sub.id and g.nodes[d].stmt is loop for nm, d in reach):
+                            leaks.append(sub)
+            if not leaks:
+                continue
+            for nm in sorted(set(l.id for l in leaks)):
+                first = min((l for l in leaks if l.id == nm), key=lambda l: l.lineno)
+                obs.append(Ob('SA-MIRROR.loopvar', '%s|for %s in %s|%s read after the loop' % (fi.qual, norm(loop.target), norm(loop.iter)[:60], nm), False,
+                              ctx.loc(fi, first),
+                              '`%s` is the target of the loop at line %d and is read again at line %d, after the loop: the statement sees the last member only '
+                              '(or, when the name is also a variable of the function, that variable has silently taken the value of the last member); what was '
+                              'meant for every member belongs inside the loop, a loop-local name must not shadow a flag of the function'
+                              % (nm, loop.lineno, first.lineno)))
+    if nloops < 100:
+        raise AnalysisError('anchor-vanished: for loops in the package (%d)' % nloops)
+    obs.append(Ob('SA-MIRROR.loopvar', 'loops whose target is dead after the loop (or that break out of a search)', True, 'pycdlib/', '%d loops' % nloops))
+    return obs
